@@ -186,7 +186,7 @@ Definition postprocess_item (c : conf) (v : view) (p : preds) (x : exts) : res o
                     then (_ <- mime v ;; Ok (mime_html p))   (* GetMIMEType().String() *)
                     else Ok false) ;;
       if skip then Ok (Out Completed 0 0)
-      else if disable_assets c && negb (domains_crawl c) then Ok (Out Completed 0 0)
+      else if disable_assets c && negb (domains_crawl c) && (v_hops v >=? max_hops c) then Ok (Out Completed 0 0)
       else
         (* if item.GetURL().GetResponse() != nil && ...StatusCode == 200 *)
         if code =? 200 then
